@@ -60,14 +60,25 @@ def write_readme(results):
 
 
 def main():
-    only = sys.argv[1:]
+    args = sys.argv[1:]
+    out = None
+    if args and args[0] == "--merge":  # merge partial result files (parallel runs) into RESULTS.json + README.md
+        results = json.load(open(os.path.join(SEEDED, "RESULTS.json"))) if os.path.exists(os.path.join(SEEDED, "RESULTS.json")) else {}
+        for f in args[1:]:
+            results.update(json.load(open(f)))
+        json.dump(results, open(os.path.join(SEEDED, "RESULTS.json"), "w"), indent=1, sort_keys=True)
+        write_readme(results)
+        return 0
+    if args and args[0] == "--out":  # partial run: results go to the given file only
+        out, args = args[1], args[2:]
+    only = args
     wt = f"/tmp/seeded_wt_{os.getpid()}"
     rc, out = sh(f"git -C /repo worktree add --detach {wt} HEAD")
     if rc != 0:
         print(out)
         return 2
     results = {}
-    path = os.path.join(SEEDED, "RESULTS.json")
+    path = out or os.path.join(SEEDED, "RESULTS.json")
     if os.path.exists(path):
         results = json.load(open(path))
     try:
@@ -95,7 +106,8 @@ def main():
             json.dump(results, open(path, "w"), indent=1, sort_keys=True)
     finally:
         sh(f"git -C /repo worktree remove --force {wt}")
-    write_readme(results)
+    if not out:
+        write_readme(results)
     return 0
 
 
